@@ -58,14 +58,14 @@ Proof. intros HD [n H] Hin. exists n. eapply sch_property_sound; eauto. Qed.
 (* the excluded shapes: Property answers `false` for a value the schema does not constrain *)
 Example sch_property_always_unsound :
   sch_accepts 3 ScAlways (XObj false false [("k", XScalar false false (SNum "1"))]) = true /\
-  sch_property sch_fuel "k" ScAlways = ScNever /\
-  forall n, sch_accepts n (sch_property sch_fuel "k" ScAlways) (XScalar false false (SNum "1")) = false.
+  sch_property (sch_depth ScAlways) "k" ScAlways = ScNever /\
+  forall n, sch_accepts n (sch_property (sch_depth ScAlways) "k" ScAlways) (XScalar false false (SNum "1")) = false.
 Proof. repeat split. intros [|n]; reflexivity. Qed.
 
 Example sch_property_open_record_unsound :
   sch_accepts 3 (ScObject [] None) (XObj false false [("k", XScalar false false (SNum "1"))]) = true /\
-  sch_property sch_fuel "k" (ScObject [] None) = ScNever /\
-  forall n, sch_accepts n (sch_property sch_fuel "k" (ScObject [] None)) (XScalar false false (SNum "1")) = false.
+  sch_property (sch_depth (ScObject [] None)) "k" (ScObject [] None) = ScNever /\
+  forall n, sch_accepts n (sch_property (sch_depth (ScObject [] None)) "k" (ScObject [] None)) (XScalar false false (SNum "1")) = false.
 Proof. repeat split. intros [|n]; reflexivity. Qed.
 
 (* closure of the classes *)
@@ -82,6 +82,6 @@ Qed.
 
 (* one step on an object schema, as evaluateUnknownAccess uses it *)
 Lemma sch_property_object k props addl :
-  sch_property sch_fuel k (ScObject props addl) =
+  sch_property (sch_depth (ScObject props addl)) k (ScObject props addl) =
   match prop_sch props addl k with Some p => sch_union [p] | None => ScNever end.
 Proof. unfold prop_sch. cbn. destruct (alookup k props); [reflexivity|]. destruct addl; reflexivity. Qed.
